@@ -16,12 +16,12 @@ START, WORD, SQ, ESC, COMMENT = 0, 1, 2, 3, 4
 BREAK = -1
 
 # characters that the shell re-interprets when they occur unquoted in a word
-ACTIVE = CharClass.of('|&;<>()$`"*?[#~!{}\n\r', 'sh-active')
+ACTIVE = CharClass.of('|&;<>()$`"*?[~!{}\n\r', 'sh-active')     # `#` is special only at the start of a word
 BLANK = CharClass.of(' \t', 'sh-blank')
 # characters with a meaning of their own in the fold: quote, backslash, blanks
 QUOTE, BSLASH, HASH = ord("'"), ord('\\'), ord('#')
 # everything that is not inert in unquoted text
-NOT_INERT = ACTIVE.union(BLANK).union(CharClass.of("'\\", 'sh-quoting'))
+NOT_INERT = ACTIVE.union(BLANK).union(CharClass.of("'\\#", 'sh-quoting-or-comment'))
 NOT_INERT.name = 'sh-not-inert'
 
 
@@ -87,3 +87,34 @@ def py_lex(line):
     if st[0] in (WORD,) or (have and st[0] != START):
         words.append(''.join(cur))
     return words, bool(st[1]), closed
+
+
+def sh_words(line):
+    """Concrete reading by the spec fold: list of words, or None if the line is not read purely literally
+    (some unquoted character would be re-interpreted, or a quote is left open)."""
+    st, out = sh.pyrun_codes((START, 1), line)
+    if st[1] != 1 or st[0] not in (START, WORD):
+        return None
+    words, cur = [], []
+    started = False
+    # replay to know where words start (an empty word '' produces no output)
+    q = (START, 1)
+    from pyvc import terms as _T
+    _T._CONCRETE[0] = True
+    try:
+        for ch in line:
+            q2, o = sh_step(q, ord(ch))
+            if q[0] == START and q2[0] in (WORD, SQ, ESC):
+                started = True
+            for v in o:
+                if v == BREAK:
+                    words.append(''.join(cur))
+                    cur, started = [], False
+                else:
+                    cur.append(chr(v))
+            q = tuple(int(x) for x in q2)
+    finally:
+        _T._CONCRETE[0] = False
+    if started:
+        words.append(''.join(cur))
+    return words
